@@ -155,6 +155,14 @@ func discharge(o *Obligation, scratch string, timeout time.Duration) {
 	launch(solvers[0], timeout)
 	pending := 1
 	others := false
+	// solver hints (written by `lock`): obligations that another solver decided when the lock was written start all
+	// solvers at once instead of after 2 s
+	if solverHints[o.Name] != "" {
+		others = true
+		launch(solvers[1], timeout)
+		launch(solvers[2], timeout)
+		pending += 2
+	}
 	timer := time.NewTimer(2 * time.Second)
 	defer timer.Stop()
 	best := solveResult{status: "unknown"}
@@ -257,6 +265,10 @@ func (o *Obligation) finish(want string, scratch string) {
 		}
 	}
 }
+
+// solverHints: obligation name -> name of the solver that decided it when the lock was written (only when that was not
+// the first solver); read from solver_hints.json by loadAll.
+var solverHints = map[string]string{}
 
 func dischargeAll(obs []*Obligation, scratch string, timeout time.Duration) {
 	var wg sync.WaitGroup
